@@ -19,8 +19,14 @@ env = dict(os.environ, GOFLAGS="-mod=mod", GOPROXY="off", GOSUMDB="off", GOTOOLC
 
 
 def sh(cmd, cwd=None, timeout=1500):
-    p = subprocess.run(cmd, shell=True, cwd=cwd, env=env, capture_output=True, text=True, timeout=timeout)
-    return p.returncode, (p.stdout + p.stderr)[-3000:]
+    p = subprocess.run(cmd, shell=True, cwd=cwd, env=env, capture_output=True, timeout=timeout)
+    return p.returncode, (p.stdout.decode("utf-8", "replace") + p.stderr.decode("utf-8", "replace"))[-3000:]
+
+
+def demo_failed(rc, out):
+    """The agents' commands often end with `; rm demo_test.go`, so the exit code is not the test's."""
+    bad = any(x in out for x in ("--- FAIL", "FAIL\t", "\nFAIL", "panic:", "fatal error:", "DEMO-FAIL", "exit status"))
+    return rc != 0 or bad
 
 
 meta = json.load(open(os.path.join(src, "meta.json")))
@@ -39,6 +45,7 @@ try:
     run = run.replace("/tmp/mut-%s" % prop, wt)
     res["demo_cmd"] = run
     rc0, out0 = sh(run, cwd=wt, timeout=900)
+    rc0 = 1 if demo_failed(rc0, out0) else 0
     res["demo_clean_rc"] = rc0
     res["demo_clean_tail"] = out0[-300:]
     rc, out = sh("git apply %s" % os.path.join(src, "patch.diff"), cwd=wt)
@@ -46,6 +53,7 @@ try:
     rcb, outb = sh("go build ./...", cwd=wt)
     res["build_rc"] = rcb
     rc1, out1 = sh(run, cwd=wt, timeout=900)
+    rc1 = 1 if demo_failed(rc1, out1) else 0
     res["demo_patched_rc"] = rc1
     res["demo_patched_tail"] = out1[-600:]
     # suite (without the demo files: everything untracked goes, the patch stays)
@@ -59,9 +67,9 @@ try:
     res["checks"] = {}
     for c in checks:
         t = time.time()
-        p = subprocess.run("VERIF_REPO=%s python3 /verif/bin/check %s --tier quick" % (wt, c), shell=True, capture_output=True, text=True, timeout=3000,
+        p = subprocess.run("VERIF_REPO=%s python3 /verif/bin/check %s --tier quick" % (wt, c), shell=True, capture_output=True, timeout=3000,
                            cwd="/verif", env=dict(env, VERIF_SCRATCH_BASE="/tmp"))
-        viol = [l for l in p.stdout.splitlines() if l.startswith("VIOLATION")]
+        viol = [l for l in p.stdout.decode("utf-8", "replace").splitlines() if l.startswith("VIOLATION")]
         res["checks"][c] = {"exit": p.returncode, "violations": viol[:6], "wall_s": round(time.time() - t)}
     res["detected_by"] = [c for c, r in res["checks"].items() if r["exit"] == 1]
 finally:
